@@ -1,0 +1,33 @@
+//go:build verif
+
+package provider
+
+// Contracts for the sweeping provider (property C17). Comment-only.
+
+/*@
+immutable field SweepingProvider.reprovideInterval
+immutable field SweepingProvider.maxReprovideDelay
+immutable field SweepingProvider.replicationFactor
+
+# ---- schedule arithmetic ----------------------------------------------------
+# Offsets live in [0, interval). timeBetween is the wait from one offset to
+# the next occurrence of another: between 1 and interval, and it lands exactly
+# on the target offset.
+func (s *SweepingProvider) timeBetween(from, to time.Duration) time.Duration
+  props C17
+  requires s.reprovideInterval > 0 && 0 <= from && from < s.reprovideInterval && 0 <= to && to < s.reprovideInterval
+  modifies nothing
+  ensures [within-one-cycle] 1 <= result && result <= s.reprovideInterval
+  ensures [lands-on-the-offset] mod(from + result, s.reprovideInterval) == to
+
+# The slot of a prefix is a fraction val/2^n of the interval: inside the cycle,
+# and computed without leaving the 64-bit range (second ghost assert).
+func (s *SweepingProvider) reprovideTimeForPrefix(prefix bitstr.Key) time.Duration
+  props C17
+  requires s.reprovideInterval > 0
+  ghostvar $val int = 0
+  modifies nothing
+  ensures [slot-inside-the-cycle] 0 <= result && result < s.reprovideInterval
+  ghost at assign(val): $val = val; assert(0 <= val && val < maxInt && maxInt <= 16777216)
+  ghost at return: assert(s.reprovideInterval * $val <= 9223372036854775807)
+@*/
